@@ -223,7 +223,7 @@ func (w *World) newExec() (*Exec, error) {
 	ex := &Exec{
 		w: w, prog: w.prog, st: NewStore(), sol: sol,
 		globals: map[*ssa.Global]*Loc{}, inited: map[*ssa.Package]bool{},
-		funcs: map[*ssa.Function]int{}, intr: map[*ssa.Function]intrinsicFn{}, regexps: map[*Loc]*regexp.Regexp{},
+		funcs: map[*ssa.Function]int{}, intr: map[*ssa.Function]intrinsicFn{}, regexps: map[*Loc]*regexp.Regexp{}, lineScanners: map[*Loc]*lineScanner{},
 	}
 	ex.stats.PathKinds = map[string]int{}
 	ex.resetPath(nil)
